@@ -5,12 +5,16 @@
        write_yaml_DIEF (tools/floorset_parser/floor_set_manager/manager.py), given
        the rectangles strop_decomposition returned (terminal rectangles as repaired
        by fixes/C19-floorset-terminal-position.diff);
-     rect_io.solution_to_netlist and rect_io.get_netlist (tools/rect/rect_io.py)
-       and legalfloor.Model.get_netlist (tools/legalfloor/legalfloor.py): the TREE
-       obtained by parsing the text these functions assemble by concatenation
-       (the text layer is outside the model; module names that YAML reads as
-       null / true / false are outside the domain of these three models).
-   Definitions only; facts in ProducersFacts.v. *)
+     rect_io.solution_to_netlist, rect_io.get_netlist (tools/rect/rect_io.py) and
+       legalfloor.Model.get_netlist (tools/legalfloor/legalfloor.py) AS REPAIRED by
+       fixes/C19-solution-to-netlist-writer.diff, fixes/C19-get-netlist-zero-area.diff
+       and fixes/C19-legalfloor-get-netlist.diff: the data structures handed to
+       dump_yaml_modules / dump_yaml_edges / write_yaml (resp. to Netlist directly);
+     the same three functions as found (names ending in _found): the TREE obtained by parsing the
+       text they assemble by concatenation (the text layer is outside the model;
+       module names that YAML reads as null / true / false are outside the domain
+       of the _found models).
+   Definitions only; facts in ProducersFacts.v, ProducersRT.v. *)
 From FrameModel Require Import Num.QcTac Geometry.Rect Alloc.Alloc Stog.CreateStog Yaml.Tree
   Yaml.NetlistRead Yaml.NetlistWrite Yaml.Netgen Yaml.DieAlloc.
 Open Scope Qc_scope.
@@ -108,7 +112,23 @@ Definition fs_die_doc (pins : list (Qc * Qc)) : ytree :=
   YMap [(KW_WIDTH, yfloat (qmax_list (map fst pins))); (KW_HEIGHT, yfloat (qmax_list (map snd pins)))].
 
 (* ------------------------------------------------------------------ *)
-(* rect_io.solution_to_netlist                                         *)
+(* rect_io.solution_to_netlist (repaired)                              *)
+(* ------------------------------------------------------------------ *)
+(* modules = dump_yaml_modules(netlist.modules);
+   for name, boxes in result.items(): if name in modules: modules[name][KW_RECTANGLES] = boxes;
+   write_yaml({Modules: modules, Nets: dump_yaml_edges(netlist.edges)}).
+   [result] is a dict: a name occurs once. *)
+Definition sol_entry (result : list (string * list box)) (m : module) : string * ytree :=
+  (m_name m,
+   YMap (match lookup (m_name m) result with
+         | Some bs => dict_set (write_module m) KW_RECTANGLES (YList (map box_tree bs))
+         | None => write_module m
+         end)).
+Definition solution_to_netlist (n : netlist) (result : list (string * list box)) : ytree :=
+  netlist_doc (map (sol_entry result) (nl_modules n)) (map write_net (nl_nets n)).
+
+(* ------------------------------------------------------------------ *)
+(* rect_io.solution_to_netlist as found                                *)
 (* ------------------------------------------------------------------ *)
 Definition rect4 (r : mrect) : ytree :=
   YList [scalar_tree (mr_x r); scalar_tree (mr_y r); scalar_tree (mr_w r); scalar_tree (mr_h r)].
@@ -151,7 +171,7 @@ Definition names_net (e : net) : ytree := YList (map YStr (n_members e)).
 
 (* the text is a flow mapping: a repeated key is an error of the text layer, so
    the entries are those of a dict *)
-Definition solution_to_netlist (n : netlist) (result : list (string * list box)) : option ytree :=
+Definition solution_to_netlist_found (n : netlist) (result : list (string * list box)) : option ytree :=
   match sol_modules result (nl_modules n) with
   | Some ms => Some (netlist_doc ms (map names_net (nl_nets n)))
   | None => None
@@ -162,23 +182,46 @@ Definition solution_to_netlist (n : netlist) (result : list (string * list box))
 (* ------------------------------------------------------------------ *)
 (* module_map: name -> (centre, area), updated cell by cell *)
 Definition mm_entry : Type := (Qc * Qc * Qc)%type.
+(* repaired: the entry is left as it is while a1 + a2 is still zero *)
 Definition mm_add (mm : list (string * mm_entry)) (c : cell) (kv : string * Qc) : list (string * mm_entry) :=
   let r := crect c in
   let a2 := area r * snd kv in
   match lookup (fst kv) mm with
   | None => dict_set mm (fst kv) (cx r, cy r, a2)
   | Some (x1, y1, a1) =>
-      let f1 := a1 / (a1 + a2) in
-      let f2 := a2 / (a1 + a2) in
-      dict_set mm (fst kv) (x1 * f1 + cx r * f2, y1 * f1 + cy r * f2, a1 + a2)
+      if Qcltb 0 (a1 + a2) then
+        let f1 := a1 / (a1 + a2) in
+        let f2 := a2 / (a1 + a2) in
+        dict_set mm (fst kv) (x1 * f1 + cx r * f2, y1 * f1 + cy r * f2, a1 + a2)
+      else mm
   end.
 Definition module_map (cells : list cell) : list (string * mm_entry) :=
   fold_left (fun mm c => fold_left (fun mm kv => mm_add mm c kv) (calloc c) mm) cells [].
-Definition alloc_netlist_doc (cells : list cell) : ytree :=
+(* as found: None = ZeroDivisionError (a1 / (a1 + a2) with a1 + a2 = 0.0) *)
+Definition mm_add_found (mm : list (string * mm_entry)) (c : cell) (kv : string * Qc)
+  : option (list (string * mm_entry)) :=
+  let r := crect c in
+  let a2 := area r * snd kv in
+  match lookup (fst kv) mm with
+  | None => Some (dict_set mm (fst kv) (cx r, cy r, a2))
+  | Some (x1, y1, a1) =>
+      if Qceqb (a1 + a2) 0 then None
+      else
+        let f1 := a1 / (a1 + a2) in
+        let f2 := a2 / (a1 + a2) in
+        Some (dict_set mm (fst kv) (x1 * f1 + cx r * f2, y1 * f1 + cy r * f2, a1 + a2))
+  end.
+Definition module_map_found (cells : list cell) : option (list (string * mm_entry)) :=
+  fold_left (fun o c => fold_left (fun o kv => match o with Some mm => mm_add_found mm c kv | None => None end)
+                                  (calloc c) o) cells (Some []).
+Definition mm_doc (mm : list (string * mm_entry)) : ytree :=
   netlist_doc (map (fun e => let '(k, (x, y, a)) := e in
                              (k, YMap [(KW_AREA, yfloat a); (KW_CENTER, YList [yfloat x; yfloat y])]))
-                   (module_map cells))
+                   mm)
               [].
+Definition alloc_netlist_doc (cells : list cell) : ytree := mm_doc (module_map cells).
+Definition alloc_netlist_doc_found (cells : list cell) : option ytree :=
+  match module_map_found cells with Some mm => Some (mm_doc mm) | None => None end.
 
 (* ------------------------------------------------------------------ *)
 (* legalfloor: netlist_to_utils + Model.get_netlist on a model that was built *)
@@ -239,12 +282,92 @@ Fixpoint lf_modules (ms : list module) : option (list (string * ytree)) :=
       end
   end.
 
-Definition legal_netlist (n : netlist) : option ytree :=
+Definition legal_netlist_found (n : netlist) : option ytree :=
   match nl_modules n with
   | [] => None                      (* tau = ... / len(ml): no model without modules *)
   | _ =>
       match lf_modules (nl_modules n) with
       | Some ms => Some (netlist_doc ms (map names_net (nl_nets n)))
+      | None => None
+      end
+  end.
+
+(* ------------------------------------------------------------------ *)
+(* legalfloor (repaired): Model(..., netlist).get_netlist on a model that was built *)
+(* ------------------------------------------------------------------ *)
+(* netlist_to_utils (the rectangles handed to the model) and model_order (their
+   indices in module.rectangles) run the same loop; here: one loop over the
+   indexed rectangles, projected twice *)
+Record lfp : Type := mkLfp {
+  lp_t : option (nat * mrect); lp_n : list (nat * mrect); lp_s : list (nat * mrect);
+  lp_e : list (nat * mrect); lp_w : list (nat * mrect) }.
+Definition lfp_step (b : lfp) (kr : nat * mrect) : lfp :=
+  match mr_loc (snd kr) with
+  | TRUNK => mkLfp (Some kr) (lp_n b) (lp_s b) (lp_e b) (lp_w b)
+  | NORTH => mkLfp (lp_t b) (lp_n b ++ [kr]) (lp_s b) (lp_e b) (lp_w b)
+  | SOUTH => mkLfp (lp_t b) (lp_n b) (lp_s b ++ [kr]) (lp_e b) (lp_w b)
+  | EAST => mkLfp (lp_t b) (lp_n b) (lp_s b) (lp_e b ++ [kr]) (lp_w b)
+  | WEST => mkLfp (lp_t b) (lp_n b) (lp_s b) (lp_e b) (lp_w b ++ [kr])
+  | NOPOLY =>
+      match lp_t b with
+      | None => mkLfp (Some kr) (lp_n b) (lp_s b) (lp_e b) (lp_w b)
+      | Some _ => mkLfp (lp_t b) (lp_n b ++ [kr]) (lp_s b) (lp_e b) (lp_w b)
+      end
+  end.
+Definition lfp_of (rs : list mrect) : lfp := fold_left lfp_step (indexed 0 rs) (mkLfp None [] [] [] []).
+(* trunk, north, south, east, west: the rectangles of the model in its order *)
+Definition lfp_flat (b : lfp) : list (nat * mrect) :=
+  ((match lp_t b with Some t => [t] | None => [] end) ++ lp_n b ++ lp_s b ++ lp_e b ++ lp_w b)%list.
+
+Fixpoint index_of (k : nat) (l : list nat) : option nat :=
+  match l with
+  | [] => None
+  | x :: r => if Nat.eqb k x then Some O else match index_of k r with Some j => Some (S j) | None => None end
+  end.
+
+Definition float4_items (r : mrect) : list ytree :=
+  [yfloat (sval (mr_x r)); yfloat (sval (mr_y r)); yfloat (sval (mr_w r)); yfloat (sval (mr_h r))].
+Definition region_items (r : mrect) : list ytree :=
+  if String.eqb (mr_region r) KW_GROUND then [] else [YStr (mr_region r)].
+
+(* rects[order.index(k)] + [region of the k-th rectangle]; None = ValueError / IndexError *)
+Definition legal_rect (model : list (nat * mrect)) (kr : nat * mrect) : option ytree :=
+  match index_of (fst kr) (map fst model) with
+  | Some j =>
+      match nth_error (map snd model) j with
+      | Some mr => Some (YList (float4_items mr ++ region_items (snd kr)))
+      | None => None
+      end
+  | None => None
+  end.
+Fixpoint seq_opt {A} (l : list (option A)) : option (list A) :=
+  match l with
+  | [] => Some []
+  | Some x :: r => match seq_opt r with Some xs => Some (x :: xs) | None => None end
+  | None :: _ => None
+  end.
+Definition legal_rects (rs : list mrect) : option (list ytree) :=
+  let model := lfp_flat (lfp_of rs) in
+  seq_opt (map (legal_rect model) (indexed 0 rs)).
+
+(* None = the model cannot be built (a module without rectangle has a 0 x 0 trunk) *)
+Definition legal_entry (m : module) : option (string * ytree) :=
+  match m_rects m with
+  | [] => None
+  | _ =>
+      match legal_rects (m_rects m) with
+      | Some rs => Some (m_name m, YMap (dict_set (write_module m) KW_RECTANGLES (YList rs)))
+      | None => None
+      end
+  end.
+
+(* nets: names of the pins, the weight of the hypergraph when it is not 1 *)
+Definition legal_netlist (n : netlist) : option ytree :=
+  match nl_modules n with
+  | [] => None                      (* tau = ... / len(ml): no model without modules *)
+  | _ =>
+      match seq_opt (map legal_entry (nl_modules n)) with
+      | Some ms => Some (netlist_doc ms (map write_net (nl_nets n)))
       | None => None
       end
   end.
